@@ -662,15 +662,15 @@ def shards(tier: str) -> list:
     out = []
     # H04a
     devs = {0: "replace by arbitrary bytes", 1: "drop", 2: "duplicate", 3: "swap", 4: "truncate (complete shorter frame)", 5: "stream ends inside a frame"}
-    ctls = ["3,2,3"] if quick else ["3,2,3", "2,2,2", "1,3,3"]
+    ctls = ["3,2,3", "2,2,2", "1,3,3"]
     for d, what in devs.items():
         for ctl in ctls:
             out.append({"fn": "h04a_data", "env": {"DEV": d, "CTL": ctl}, "cond_timeout": 400,
                         "desc": f"data phase, ideal AEAD, symbolic inbound nonce: {what} frame i of 3 (ciphertext token lengths {ctl}), trailing honest frames in the same chunk"})
     # H04b
     out.append({"fn": "h04b_hello", "env": {}, "cond_timeout": 300, "desc": "empty hello / protocol selector symbolic byte != 1 followed by symbolic bytes"})
-    for sp in ((0, 1) if quick else (0, 1, 2)):
-        out.append({"fn": "h04b_name", "env": {"NAMELEN": 2 if quick else 3, "SPLIT": sp}, "cond_timeout": 500,
+    for sp in (0, 1, 2):
+        out.append({"fn": "h04b_name", "env": {"NAMELEN": 3 if (sp == 0 or not quick) else 2, "SPLIT": sp}, "cond_timeout": 600,
                     "desc": f"symbolic device name vs symbolic Optional expected name; device keeps talking (handshake + data), chunking variant {sp}"})
     for m in (0, 1, 2):
         out.append({"fn": "h04b_hs_error", "env": {"TEXT": m}, "cond_timeout": 400,
@@ -703,11 +703,11 @@ def shards(tier: str) -> list:
 
 
 BOUNDS = {
-    "quick": "data phase: inbound nonce symbolic in [0,2^32), 3 honest frames with symbolic types [0,65536), symbolic payload (1,0,2 bytes) and symbolic ciphertext tokens (3,2,3 bytes), one deviation (replace by any 0..4 symbolic bytes / drop / duplicate / swap / truncate to any shorter length / stream ends inside the frame) at any frame, all in one chunk. "
-             "handshake phase: symbolic selector/marker/first bytes, up to 3 further symbolic bytes, device and expected names symbolic strings of length <= 2 (any characters except NUL), explanation texts ASCII. "
+    "quick": "data phase: inbound nonce symbolic in [0,2^32), 3 honest frames with symbolic types [0,65536), symbolic payload (1,0,2 bytes) and symbolic ciphertext tokens (lengths 3,2,3 / 2,2,2 / 1,3,3), one deviation (replace by any 0..4 symbolic bytes / drop / duplicate / swap / truncate to any shorter length / stream ends inside the frame) at any frame, all in one chunk. "
+             "handshake phase: symbolic selector/marker/first bytes, up to 3 further symbolic bytes, device and expected names symbolic strings of length <= 3 (one chunk) / <= 2 (split chunks), any characters except NUL, explanation texts ASCII. "
              "real cipher: every bit of the handshake message, bits 0 and 7 of every byte of 3 data frames, 2 keys. "
              "key strings: all strings of length <= 3 over " + repr("".join(ALPHA)) + " and the two canonical keys truncated at every length / extended by up to 3 copies of one alphabet character",
-    "thorough": "as quick with three ciphertext-length layouts, names of length <= 3, all 8 bits, both keys, key strings of length <= 4",
+    "thorough": "as quick with names of length <= 3 in every chunking, all 8 bits of every data-frame byte, both keys, key strings of length <= 4",
 }
 OUTSIDE = [
     "cryptographic strength: data-phase content checks assume the ideal AEAD; h04c/h04b_wrongkey execute the real cipher on solver-enumerated bit flips",
